@@ -8,7 +8,7 @@ A case (JSON-serialisable, canonical):
   {"tmpls": [tmpl, ...], "doc": [node, ...]}      <root> declarations… content… </root>
   node  := [name, [node, ...], [[attr, value], ...]] | "text"
   tmpl  := {"match": text, "spath": spath | None, "body": [bitem, ...], "buffer": bool, "once": bool, "recursive": bool}
-  spath := [[[axis, name, pred], ...], ...]          union of location paths, axis in child|desc|dos (`//`),
+  spath := [[[axis, name, pred], ...], ...]          union of location paths, axis in child|desc|dos (`//`)|attr (last step only),
                                                      name or '*', pred := None | ["has", a] | ["eq", a, v] | ["not", a]
   bitem := as in gen_c12 (["w", [...]] | "text" | {"sel": spath})
 """
@@ -75,6 +75,10 @@ def rand_spath(rng):
             elif r < 0.34:
                 pred = ['not', rng.choice(ANAMES)]
             steps.append([axis, name, pred])
+        if rng.random() < 0.08:
+            # a final attribute step: the path selects attribute nodes, so it matches no ELEMENT (the test
+            # closure answers an Attrs value, never `True`); as an operand of a union it must not disturb the others
+            steps.append(['attr', rng.choice(ANAMES + ['*']), None])
         alts.append(steps)
     return alts
 
@@ -84,6 +88,9 @@ def spath_text(sp):
     for steps in sp:
         t = ''
         for i, (axis, name, pred) in enumerate(steps):
+            if axis == 'attr':
+                t += '/@' + name
+                continue
             if axis == 'dos':
                 t += '//'
             elif axis == 'desc':
@@ -127,7 +134,9 @@ def path_shape(text, res_count):
             res_count('rpath:descendant-or-self::')
         if '[' in a:
             res_count('rpath:predicate')
-        if '@' in a:
+        if '/@' in a:
+            res_count('rpath:attribute-final-step')
+        if '[@' in a or '(@' in a:
             res_count('rpath:attribute-predicate')
         if '*' in a or 'node()' in a:
             res_count('rpath:wildcard')
@@ -268,6 +277,9 @@ def _pred_ok(pred, attrs):
 def pattern_matches(steps, chain):
     """chain: [(name, attrs)] outermost first, the element last; XSLT-pattern reading:
     child steps relate neighbours, desc / dos(`//`) steps relate an ancestor to a descendant"""
+    if steps[-1][0] == 'attr':
+        return False            # attribute nodes are not elements: nothing to replace
+
     def m(k, pos):
         axis, name, pred = steps[k]
         if pos < 0:
